@@ -28,8 +28,10 @@ def interop_keys(dh, n=40):
 
 
 class Acct:
-    def __init__(self, wallet, name, pk, unlockable=True):
+    def __init__(self, wallet, name, pk, unlockable=True, pass2=False, dist=None):
         self.wallet, self.name, self.pk, self.unlockable = wallet, name, pk, unlockable
+        self.pass2 = pass2          # encrypted with the unlocker's second account passphrase
+        self.dist = dist            # "id=endpoint;id=endpoint": a DISTRIBUTED account (in a distributed wallet) with these participants
 
     @property
     def path(self):
@@ -51,6 +53,9 @@ def std_config(keys, nacct=6, locked=True):
         # layered entries that overlap on one account: the narrow one decides proposals, the broad one everything else
         ("client4", "Wallet 1/Account 1", ["Sign beacon proposal"]),
         ("client4", "Wallet 1", ["~Sign beacon proposal", "All"]),
+        # generic signing allowed, attesting refused (explicitly / by not being mentioned): every endpoint must ask for ITS operation
+        ("client5", "Wallet 1", ["~Sign beacon attestation", "All"]),
+        ("client6", "Wallet 1", ["Sign", "Sign beacon proposal", "Access account"]),
         ("clientall", "", ["All"]) if False else ("clientall", ".*", ["All"]),
     ]
     admins = ["10.0.0.1", "::1"]
@@ -71,7 +76,10 @@ def accts_from_config(cfg):
 def config_lines(accts, perms, admins, raws=()):
     out = []
     for a in accts:
-        out.append("acct %s %s %s %d" % (hx(a.wallet), hx(a.name), a.pk.hex(), 1 if a.unlockable else 0))
+        if getattr(a, "dist", None):
+            out.append("acct %s %s %s d%s" % (hx(a.wallet), hx(a.name), a.pk.hex(), hx(a.dist)))
+            continue
+        out.append("acct %s %s %s %d" % (hx(a.wallet), hx(a.name), a.pk.hex(), (2 if getattr(a, "pass2", False) else 1) if a.unlockable else 0))
     for c, p, ops in perms:
         out.append("perm %s %s %s" % (hx(c), hx(p), ",".join(hx(o) for o in ops) if ops else "-"))
     for ip in admins:
@@ -203,7 +211,7 @@ class HistGen:
         r = self.r
         if not self.opts.get("faults", False) or not r.chance(self.opts.get("fault_rate", 0.12)):
             return "-"
-        k = r.weighted([("f", 4), ("s", 3), ("S", 3), ("g", 3)])
+        k = r.weighted([("f", 4), ("s", 3), ("S", 3), ("g", 3), ("b", 2)])
         if k == "f":
             return "f%d" % r.below(batch_n)
         if k == "g":
@@ -211,7 +219,7 @@ class HistGen:
         return k
 
     def client(self):
-        return self.r.weighted([("client1", 50), ("client2", 8), ("client3", 10), ("client4", 16), ("clientall", 12), ("nobody", 4), ("", 2)])
+        return self.r.weighted([("client1", 44), ("client2", 8), ("client3", 10), ("client4", 14), ("client5", 7), ("client6", 7), ("clientall", 12), ("nobody", 4), ("", 2)])
 
     def pick_acct(self):
         # the locked account costs a keystore decryption attempt per request: pick it rarely
